@@ -161,5 +161,27 @@ func C11URIMoves(what string, buf []byte, f sipsp.PField, moves []int) (res stri
 			return d
 		}
 	}
+	// finally the usual "truncate, copy, relocate": without parameters and headers the URI is its
+	// short form, and a span of exactly that length has room for it
+	dangling := false // an empty component that still has a position ("sip:a:;x": empty port): its delimiter is not in Short()
+	for _, f := range []sipsp.PField{u.User, u.Pass, u.Host, u.Port} {
+		if f.Len == 0 && f.Offs != 0 {
+			dangling = true
+		}
+	}
+	if sh := u.Short(); sh.Len > 0 && (u.Params.Len > 0 || u.Headers.Len > 0) && !dangling {
+		t := u
+		t.Truncate()
+		want := append([]byte(nil), sh.Get(cur)...)
+		np := (pos + 7) % 60000
+		if !t.AdjustOffs(sipsp.PField{Offs: sipsp.OffsT(np), Len: sh.Len}) {
+			return fmt.Sprintf("%s URI %q: after Truncate() the relocation into a span of Short().Len=%d bytes was refused", what, txt, sh.Len)
+		}
+		nb := make([]byte, np+int(sh.Len))
+		copy(nb[np:], want)
+		if l := t.Long(); int(l.Offs)+int(l.Len) > len(nb) || !bytes.Equal(l.Get(nb), want) {
+			return fmt.Sprintf("%s URI %q: truncated and relocated to %d it denotes %v instead of %q", what, txt, np, l, want)
+		}
+	}
 	return ""
 }
